@@ -282,6 +282,12 @@ def build_items(t):
         items.append({"op": "chain_expand", "a": pj, "ordering": "default"})
         for o in itt.permutations(list(p.children) + list(p.parents)):
             items.append({"op": "chain_expand", "a": pj, "ordering": [var_to_json(v) for v in o]})
+        if p.parents:
+            # an ordering only has to cover the children: orderings that list no parent, or only some of them
+            for k in range(len(p.parents)):
+                for ps in itt.combinations(p.parents, k):
+                    for o in itt.permutations(list(p.children) + list(ps)):
+                        items.append({"op": "chain_expand", "a": pj, "ordering": [var_to_json(v) for v in o]})
         items.append({"op": "fraction_expand", "a": pj})
         items.append({"op": "bayes_expand", "a": pj})
     return items
@@ -297,7 +303,7 @@ def run() -> int:
         "y0.mutate.chain.chain_expand / fraction_expand / bayes_expand; y0.mutate.contract.contract / recursive_contract; mutate.utils.Applier",
     ]
     rep.bounds = {
-        "operands": "52 representative operands (27 leaves incl. value-marked, interventional, population-tagged, One, Zero; products, sums, nested sums, fractions incl. nested and constant ones, Q-factors): all ordered pairs for * and /; all range sets over A,B,C (+X) for marginalize/conditional; every depth-2 fraction/sum of the C10 family for simplify; for contract (quick: every 3rd); every probability leaf with every ordering for chain_expand",
+        "operands": "52 representative operands (27 leaves incl. value-marked, interventional, population-tagged, One, Zero; products, sums, nested sums, fractions incl. nested and constant ones, Q-factors): all ordered pairs for * and /; all range sets over A,B,C (+X) for marginalize/conditional; every depth-2 fraction/sum of the C10 family for simplify; for contract (quick: every 3rd); every probability leaf with every ordering of its variables, and with every ordering that covers the children and only some (or none) of the parents, for chain_expand",
         "distributions": "free positive joints per (population, intervention assignment), binary variables; Q-factors as uninterpreted positive functions; all value assignments",
         "PYTHONHASHSEED": hashseed(),
     }
